@@ -21,6 +21,7 @@ import AGH.Spec.RuleList
 import AGH.Lemmas.RuleListRefresh
 import AGH.Lemmas.RuleListParse
 import AGH.Lemmas.RuleListTrimFacts
+import AGH.Lemmas.RuleListLink
 namespace AGH.C15
 open AGH AGH.Bytes
 
@@ -246,34 +247,127 @@ theorem C15_failed_refresh_keeps_rules_in_force (ls0 : List LState) (h : List (R
 
 /-! ### The model against the monitor -/
 
-/-- In every reachable state (any history from an in-sync start), the model
-satisfies every clause of the refresh monitor — file, count, checksum,
-rewriting and rules in force — for every list that is not attempted or whose
-download fails in the model's sense.  (The monitor's own notions
-`fetchBad`/`normalForm` are tied to the model's scanner-based parser by the
-correspondence run, not by a theorem.) -/
+/-- What a successful refresh stores is the monitor's normal form of the
+fetched body — split at LF, each line trimmed, blank lines and `#`/`!`
+comments dropped, each kept line followed by LF — with the number of kept
+lines as count and their CRC-32 as checksum; HTML documents and bodies with
+binary rule lines never parse.  (This ties the scanner-based parser — 64 KiB
+token limit, `dropCR` — to the LF-split definition of the property text, on
+every body.) -/
+theorem C15_stored_form_is_normal_form (src : Bytes) (h : (parse src true).err = none) :
+    (parse src true).out = normalForm src ∧
+    (parse src true).st.count = (specLines src).length ∧
+    (parse src true).st.crc = crcLines 0 (specLines src) ∧
+    htmlDoc src = false ∧ binaryDoc src = false :=
+  parse_normal src h
+
+/-- Each failure the property enumerates (cut body, HTML, binary content,
+failed transfer / unreadable file) is a failure of `update`. -/
+theorem C15_enumerated_failures_fail (f : Fetch) (h : fetchBad f = true) : fetchFails f = true :=
+  fetchBad_fails f h
+
+/-- The model's parser satisfies the parser monitor on every text, complete or
+cut short. -/
+theorem C15_parse_meets_spec (src : Bytes) (complete : Bool) :
+    parseSpecWhy src complete (parseObsOf src complete) = none := by
+  unfold parseSpecWhy parseObsOf
+  cases he : (parse src complete).err with
+  | some e => simp
+  | none =>
+    cases complete with
+    | false => exact absurd he (parse_incomplete src)
+    | true =>
+      obtain ⟨h1, h2, h3, h4, h5⟩ := parse_normal src he
+      obtain ⟨f1, f2, f3, f4⟩ := C15_normal_form_fixed_point src he
+      simp [h4, h5, h1.symm, h2.symm, h3.symm, f1, f2, f3, f4]
+
+/-- The list at index `i` after a `tryRefreshFilters` call. -/
+theorem refreshStep_flt (rq : Req) (ls : List LState) (ins : List (Bool × Fetch)) (i : Nat)
+    (l l' : LState) (due : Bool) (f : Fetch) (hl : ls[i]? = some l) (hi : ins[i]? = some (due, f))
+    (hl' : (refreshStep rq ls ins)[i]? = some l') :
+    l'.flt = if attempted rq l due then refreshOne l.flt f else l.flt := by
+  have hp := phase1_get rq ls ins i l due f hl hi
+  unfold refreshStep at hl'
+  simp only [List.getElem?_map] at hl'
+  cases hg : (phase1 rq ls ins)[i]? with
+  | none => rw [hg] at hp; simp at hp
+  | some r =>
+    rw [hg] at hp hl'
+    simp only [Option.map_some, Option.some.injEq] at hp hl'
+    rw [← hl', reload_flt, hp]
+    split <;> rfl
+
+/-- **The model satisfies the refresh monitor in every reachable state, for
+every list of every call**: not attempted, failed, succeeded with unchanged
+checksum, succeeded and rewritten.  `rew` is the model's "file was replaced". -/
 theorem C15_model_meets_spec (ls0 : List LState) (h : List (Req × List (Bool × Fetch)))
     (h0 : ∀ l ∈ ls0, InSync l) (rq : Req) (ins : List (Bool × Fetch))
     (i : Nat) (l l' : LState) (due : Bool) (f : Fetch) (hl : (runHist h ls0)[i]? = some l)
-    (hi : ins[i]? = some (due, f)) (hl' : (refreshStep rq (runHist h ls0) ins)[i]? = some l')
-    (hf : attempted rq l due = false ∨ fetchFails f = true) :
-    refreshSpecWhy i (obsOf i l false) f (attempted rq l due) (obsOf i l' false) = none := by
-  obtain ⟨h2, h1⟩ := C15_failed_refresh_keeps_rules_in_force ls0 h h0 rq ins i l due f hl hi hf
-  rw [hl'] at h1 h2
-  simp only [Option.map_some, Option.some.injEq] at h1 h2
-  have hobs : obsOf i l' false = obsOf i l false := by simp [obsOf, h1, h2]
-  rw [hobs]
-  unfold refreshSpecWhy
-  cases ha : attempted rq l due with
-  | false => simp [obsOf]
-  | true =>
-    simp only [Bool.not_true, Bool.false_eq_true, if_false]
-    by_cases hb : fetchBad f = true
-    · simp [hb, obsOf]
-    · simp only [hb, if_false]
-      cases f with
-      | fail => rfl
-      | body data c => simp [obsOf]
+    (hi : ins[i]? = some (due, f)) (hl' : (refreshStep rq (runHist h ls0) ins)[i]? = some l') :
+    refreshSpecWhy i (obsOf i l false) f (attempted rq l due)
+      (obsOf i l' (attempted rq l due && (updateIntl l.flt.checksum f).isSome)) = none := by
+  by_cases hf : attempted rq l due = false ∨ fetchFails f = true
+  · -- nothing may change, and nothing does
+    obtain ⟨h2, h1⟩ := C15_failed_refresh_keeps_rules_in_force ls0 h h0 rq ins i l due f hl hi hf
+    rw [hl'] at h1 h2
+    simp only [Option.map_some, Option.some.injEq] at h1 h2
+    have hrew : (attempted rq l due && (updateIntl l.flt.checksum f).isSome) = false := by
+      rcases hf with hf | hf
+      · simp [hf]
+      · simp [updateIntl_none_of_fails hf]
+    have hobs : obsOf i l' false = obsOf i l false := by simp [obsOf, h1, h2]
+    rw [hrew, hobs]
+    unfold refreshSpecWhy
+    cases ha : attempted rq l due with
+    | false => simp [obsOf]
+    | true =>
+      simp only [Bool.not_true, Bool.false_eq_true, if_false]
+      by_cases hb : fetchBad f = true
+      · simp [hb, obsOf]
+      · simp only [hb, if_false]
+        cases f with
+        | fail => rfl
+        | body data c => simp [obsOf]
+  · -- a successful download of a complete body
+    simp only [not_or, Bool.not_eq_false, Bool.not_eq_true] at hf
+    obtain ⟨hatt, hnf⟩ := hf
+    have hflt := refreshStep_flt rq _ ins i l l' due f hl hi hl'
+    rw [hatt] at hflt
+    simp only [if_true] at hflt
+    have hnb : fetchBad f = false := by
+      cases hb : fetchBad f with
+      | false => rfl
+      | true => rw [fetchBad_fails f hb] at hnf; cases hnf
+    cases f with
+    | fail => simp [fetchFails] at hnf
+    | body data c =>
+      cases c with
+      | false => rw [C15_cut_body_fails data] at hnf; cases hnf
+      | true =>
+        have hok : (parse data true).err = none := by
+          simp only [fetchFails] at hnf
+          cases hp : (parse data true).err with
+          | none => rfl
+          | some e => rw [hp] at hnf; cases hnf
+        obtain ⟨hout, hcnt, hcrc, _, _⟩ := parse_normal data hok
+        unfold refreshSpecWhy
+        rw [hatt, hnb]
+        simp only [Bool.not_true, Bool.false_eq_true, if_false, Bool.true_and]
+        by_cases hsame : (parse data true).st.crc = l.flt.checksum
+        · have hu : updateIntl l.flt.checksum (.body data true) = none := by
+            simp [updateIntl, hsame]
+          rw [refreshOne_of_none hu] at hflt
+          simp [obsOf, hu, hflt]
+        · have hu : updateIntl l.flt.checksum (.body data true) =
+              some ((parse data true).st.count, (parse data true).st.crc, (parse data true).out) := by
+            simp [updateIntl, hok, hsame]
+          have hflt' : l'.flt =
+              ⟨l.flt.enabled, (parse data true).st.count, (parse data true).st.crc, some (parse data true).out⟩ := by
+            rw [hflt]; simp [refreshOne, hu]
+          have hne : (l'.flt.checksum == l.flt.checksum) = false := by
+            rw [hflt']; simpa using hsame
+          simp only [obsOf, hne, Bool.false_eq_true, if_false]
+          simp [hflt', hout, hcnt, hcrc]
 
 /-! ### Non-vacuity -/
 
